@@ -76,8 +76,12 @@ func signed(n *TNode) bool { return n.Block.StakeSignature != bitcrypto.BlankSig
 
 // validBlock builds a valid block on parent (retrying without transactions if the generated ones are refused).
 func (w *World) validBlock(parent *TNode, sign int, tsDelta uint64, withTx bool) *TNode {
-	for try := 0; try < 4; try++ {
+	for try := 0; try < 6; try++ {
 		spec := BlockSpec{TsDelta: tsDelta, Recipient: w.wallets[w.rng.Intn(3)].Addr, Sign: sign}
+		if try >= 4 {
+			// the entitled pool may have been emptied since it was drawn (its signature is then worthless): an unsigned block
+			spec.Sign = 0
+		}
 		if withTx && try < 2 {
 			spec.Txs, spec.TxMeta, _ = w.genTxs(parent, 3, 0)
 		}
@@ -86,6 +90,12 @@ func (w *World) validBlock(parent *TNode, sign int, tsDelta uint64, withTx bool)
 		if n.Valid {
 			return n
 		}
+	}
+	if os.Getenv("VERIF_DEBUG") != "" {
+		n := w.build(parent, BlockSpec{TsDelta: tsDelta, Recipient: w.wallets[0].Addr, Sign: sign})
+		w.bc.DB = parent.Snap.Snapshot()
+		st, _, err := w.bc.VerifDeliverRaw(n.Raw)
+		fmt.Fprintf(os.Stderr, "validBlock: parent height %d sign=%d stage=%d err=%v\n", parent.Block.Height, sign, st, err)
 	}
 	panic("c11: could not build a valid block")
 }
